@@ -239,16 +239,25 @@ Qed.
 Lemma powerRZ_sqrt_0 s : powerRZ (sqrt s) 0 = 1.
 Proof. reflexivity. Qed.
 
-(* non-vacuity: a comparison that is covered, with hypotheses that hold *)
+(* non-vacuity: a covered comparison and a covered return component, with hypotheses that hold *)
+Definition sphere_rec : fn_record :=
+  mkFn "sphere" env_len_sphere env_exc_sphere cmps_sphere rets_sphere args_sphere.
+
 Lemma masks_nonvacuous :
-  exists f id cs c, In f functions /\ In (id, cs) (fn_cmps f) /\ mem id exclusions = false /\ In c cs /\
-    scale_invariant (fun _ _ => Some 0).
+  exists id cs c, In sphere_rec functions /\ In (id, cs) (fn_cmps sphere_rec) /\ mem id exclusions = false /\
+    In c cs /\ scale_invariant (fun _ _ => Some 0).
 Proof.
-  exists (nth 2 functions (nth 0 functions (mkFn "" [] [] [] [] []))).
   eexists. eexists. eexists.
-  split; [vm_compute; right; right; left; reflexivity|].
-  split; [vm_compute; left; reflexivity|].
+  split; [unfold functions; right; left; reflexivity|].
+  split; [unfold sphere_rec, fn_cmps, cmps_sphere; left; reflexivity|].
   split; [vm_compute; reflexivity|].
   split; [left; reflexivity|].
   intros f l c _. reflexivity.
+Qed.
+
+Lemma rets_nonvacuous :
+  exists id e, In (id, (0, 2)%Z, e) (fn_rets sphere_rec) /\ mem id exclusions = false.
+Proof.
+  eexists. eexists. split; [unfold sphere_rec, fn_rets, rets_sphere; left; reflexivity|].
+  vm_compute; reflexivity.
 Qed.
